@@ -189,6 +189,14 @@ def _reader_table(chk, rf):
                 ra = rs[0].args
                 if len(ra) == 1 and isinstance(ra[0], ast.Tuple):
                     ra = ra[0].elts
+                # `(n, *(m, 3))` - a starred tuple display (the surplus arguments of an expanded `*row_shape` helper) is its elements
+                flat_ = []
+                for x in ra:
+                    if isinstance(x, ast.Starred) and isinstance(x.value, ast.Tuple):
+                        flat_.extend(x.value.elts)
+                    else:
+                        flat_.append(x)
+                ra = flat_
                 dims = tuple(x.id if isinstance(x, ast.Name) else x.value if isinstance(x, ast.Constant) else norm(x) for x in ra)
             sinks.setdefault(data, []).append((kw.arg, "data"))
             arrays[kw.arg] = dict(data=data, dims=dims, dtype=dtype, node=kw.value)
@@ -293,7 +301,15 @@ def codec_pair(chk, kind, ver, wf, rf):
             if len(want) != 1:
                 problems.append(f"no reshape: the flat buffer has rank 1 but {kind}.{f} has shape {want}")
         elif got_t != want:
-            problems.append(f"reshaped to {got_t}, container shape is {want}")
+            # one inferred dimension (-1) is the same shape exactly when all other dimensions are positive constants: numpy then
+            # derives it from the buffer size - also for an empty buffer.  Next to a dimension that can be 0 (n_atoms) it is ambiguous
+            # (`reshape(-1, 0, 3)` raises), which is the 0-atom ensemble that cannot be read back.
+            inferred = [i_ for i_, d_ in enumerate(got_t) if d_ in (-1, "-1")]
+            same_rest = len(got_t) == len(want) and len(inferred) == 1 and all(
+                isinstance(d_, int) and d_ > 0 and d_ == w_ for i_, (d_, w_) in enumerate(zip(got_t, want)) if i_ != inferred[0])
+            if not same_rest:
+                problems.append(f"reshaped to {got_t}, container shape is {want}"
+                                + (" - the inferred dimension stands next to one that can be 0: an object without atoms cannot be reshaped" if inferred else ""))
         if problems:
             chk.fail("C01.R4", key, rf.where(a["node"]), f"{rf.qualname}: {f}: " + "; ".join(problems))
         else:
